@@ -78,6 +78,7 @@ type Engine struct {
 	assumes   []string
 	depthNow  int
 	nPoison   int
+	splitRet  bool
 	tValues   time.Duration
 	nValues   int
 	logic     string
@@ -360,6 +361,9 @@ func (e *Engine) callFunction(fn *ssa.Function, args []Value, env []Value, st *S
 		unsup("no body: %s", fn.String())
 	}
 	e.funcsRun[fn.String()]++
+	splitRet := e.splitRet
+	e.splitRet = false
+	defer func() { e.splitRet = splitRet }()
 	act := &Activation{fn: fn, pos: e.wto(fn), sens: e.sensitive(fn), pending: map[int][]*Path{}, depth: depth, visits: map[int]int{}}
 	for v := range act.sens {
 		act.sensLst = append(act.sensLst, v)
@@ -406,6 +410,7 @@ func (e *Engine) callFunction(fn *ssa.Function, args []Value, env []Value, st *S
 			}
 		}
 	}
+	e.splitRet = splitRet
 	return e.mergeResults(act.results)
 }
 
@@ -621,6 +626,12 @@ func (e *Engine) tryMergeRes(a, b Result) (res Result, ok bool) {
 // results with different concrete slice/string lengths, or different pointer targets, stay separate paths
 func (e *Engine) mergeableResult(a, b Value) bool {
 	switch x := a.(type) {
+	case *Term:
+		if e.splitRet {
+			if y, ok := b.(*Term); ok && x != y && x.w > 1 {
+				return false
+			}
+		}
 	case SliceV:
 		y, ok := b.(SliceV)
 		if !ok {
